@@ -43,6 +43,18 @@ type RunInfo struct {
 
 var Engines = map[string]*Engine{}
 
+// Deep is set in the thorough tier: engines widen their bounds (more clients,
+// longer histories). A replay file records the tier it was found in.
+var Deep = os.Getenv("VERIF_TIER") == "thorough"
+
+// Scale returns n in the quick tier and the larger bound in the thorough tier.
+func Scale(n, deep int) int {
+	if Deep {
+		return deep
+	}
+	return n
+}
+
 func Register(e *Engine) { Engines[e.Name] = e }
 
 // Known finding / fixed entry as stored in /verif/known_findings.json.
@@ -106,6 +118,7 @@ type Replay struct {
 	TapeLen0 int      `json:"tape_len_before_shrinking"`
 	Shrunk   int      `json:"shrink_runs"`
 	LogHash  string   `json:"log_hash"`
+	Tier     string   `json:"tier"`
 	Log      []string `json:"log"`
 }
 
@@ -438,7 +451,7 @@ func (e *Engine) makeReplay(t *testing.T, seed uint64, rec []uint32, f simrt.Fai
 	}
 	return &Replay{
 		Engine: e.Name, Property: e.Property, Seed: seed, Oracle: f.Oracle, Detail: fa.Detail,
-		Tape: min, TapeLen0: len(rec), Shrunk: runs, LogHash: fmt.Sprintf("%016x", a.LogHash()), Log: a.Log,
+		Tape: min, TapeLen0: len(rec), Shrunk: runs, LogHash: fmt.Sprintf("%016x", a.LogHash()), Log: a.Log, Tier: os.Getenv("VERIF_TIER"),
 	}
 }
 
